@@ -171,6 +171,7 @@ let pool_replay (line : string) : string =
               if string_of_slots r.PoolM.r_slots <> sl then
                 raise (Reject ("result slots: model " ^ string_of_slots r.PoolM.r_slots))
             | _ -> raise (Reject "return not expected here"))
+         | "G" :: _ -> raise (Reject "result vector: not (old elements ++ n+1 new slots) within capacity")
          | ["X"] -> step PoolM.EDrop "drop"
          | ["E"; t] ->
            (match List.nth_opt !s.PoolM.ws (int_of_string t - 1) with
@@ -212,6 +213,7 @@ let ev_of_token (tok : string) : PoolMon.ev =
     | ["T"; sl] | ["Z"; sl] -> PoolMon.VRet (slots_of_string sl)
     | ["T"] | ["Z"] -> PoolMon.VRet []
     | ["X"] -> PoolMon.VDrop
+    | "G" :: _ -> PoolMon.VBadVec
     | ["E"; t] -> PoolMon.VExit (n t)
     | _ -> PoolMon.VOther
   with _ -> PoolMon.VOther
@@ -224,7 +226,10 @@ let clause_name = function
 (* which: the clauses that belong to the property; the others are reported by the sibling property *)
 let pool_sb (which : int list) (line : string) : string =
   let case, impl = split_sb line in
-  if String.length impl >= 5 && String.sub impl 0 5 = "crash" then "false harness-crash" else
+  if String.length impl >= 5 && String.sub impl 0 5 = "crash" then
+    (* a crash of the harness process (e.g. std's set_len precondition abort) is a memory-safety
+       outcome of par_extend / the task block: reported under C06 *)
+    (if List.mem 2 which then "false harness-crash " ^ impl else "true") else
   let scr, pan = parse_case case in
   let evs, failure = split_failure impl in
   let fails = PoolMon.check (List.map nat_of_int scr) (List.map (fun (b, i) -> (nat_of_int b, nat_of_int i)) pan)
